@@ -279,64 +279,9 @@ def r5(cx, run):
             same = callee == b
         run.check(same, "R5", "alias %s" % mir.norm(a), "alpha-equal MIR with %s" % mir.norm(b),
                   "%s and %s differ (neither identical bodies nor a delegation)" % (mir.norm(a), mir.norm(b)), mir.loc_of(u.bodies[a]))
-    # codec None => no audio: in `build`, the Option handed on as audio track is None when codec == AudioCodec::None
-    bp = "api::MuxerBuilder::<Writer>::build"
-    found = False
-    for clo in sorted(cx.g.closures_of.get(bp, [])):
-        cb = u.bodies[clo]
-        if not cb["locals"][0]["ty"].startswith("std::option::Option<api::AudioTrackConfig>"):
-            continue
-        found = True
-        dom = mir.dominators(cb)
-        nones = [e for e in flow.exits(cb) if e["kind"] == "err" and e.get("variant") == "None"]
-        somes = [e for e in flow.exits(cb) if e["kind"] == "ok"]
-        good = False
-        detail = ""
-        for blk in cb["blocks"]:
-            t = blk["term"]
-            if t["k"] != "switch":
-                continue
-            e = sym.expr(cb, t["discr"])
-            s = sym.show(e)
-            is_eq_none = "eq(" in s and "AudioCodec::None" in s
-            if not is_eq_none:
-                continue
-            tr = t["otherwise"]
-            fa = [tgt for v, tgt in t["arms"] if v == "0"]
-            if nones and somes and fa and all(tr in dom[n["bb"]] for n in nones) and all(fa[0] in dom[s_["bb"]] for s_ in somes):
-                good = True
-                detail = s
-        run.check(good, "R5", "codec-none-is-no-audio", "audio track is None exactly on the `codec == AudioCodec::None` edge (%s)" % detail,
-                  "builder does not map AudioCodec::None to 'no audio track' structurally", mir.loc_of(cb))
-    if not found:
-        # equivalent spelling: `self.audio.filter(|(codec, ..)| *codec != AudioCodec::None).map(|..| AudioTrackConfig {..})`
-        bb_ = u.bodies[bp]
-        ok2 = False
-        detail = ""
-        for bb, t, name, info in mir.calls(bb_):
-            if not (name and mir.norm(name).split("::")[-1] == "map" and "Option" in name and len(t["args"]) == 2):
-                continue
-            recv = sym.expr(bb_, t["args"][0])
-            mp = sym.expr(bb_, t["args"][1])
-            if not (recv[0] == "call" and recv[1].split("::")[-1] == "filter" and "Option" in recv[1] and len(recv[2]) == 2):
-                continue
-            pred = recv[2][1]
-            if not (pred[0] == "agg" and str(pred[1]).startswith("closure ") and mp[0] == "agg" and str(mp[1]).startswith("closure ")):
-                continue
-            pc = [k for k in u.bodies if mir.norm(k) == mir.norm(str(pred[1])[len("closure "):])]
-            mc = [k for k in u.bodies if mir.norm(k) == mir.norm(str(mp[1])[len("closure "):])]
-            if len(pc) != 1 or len(mc) != 1:
-                continue
-            pe = sym.show(sym.expr_local(u.bodies[pc[0]], 0))
-            builds = u.bodies[mc[0]]["locals"][0]["ty"].startswith("api::AudioTrackConfig")
-            keeps_non_none = ("ne(" in pe and "AudioCodec::None" in pe) or ("Not(eq(" in pe and "AudioCodec::None" in pe)
-            if builds and keeps_non_none:
-                ok2 = True
-                detail = pe
-        if ok2:
-            run.ok("R5", "codec-none-is-no-audio", "audio track is built only for entries kept by the filter `%s`" % detail[:120])
-        else:
-            run.bad("R5", "codec-none-is-no-audio", "cannot find where MuxerBuilder::build maps AudioCodec::None to 'no audio track' (neither the closure form nor filter(..).map(..))")
+    # codec None => no audio: `audio(AudioCodec::None, ..)` builds the same muxer as no audio call at all (the builder is tabulated)
+    from . import c04
+    c04.builder_audio_table(cx.prog, run, "R5")
 
 
 def _reaches_only(cx, callee, chain, dst):
